@@ -290,7 +290,7 @@ func faultStreamBody(s *simrt.Sim) {
 			probe(s, &fr.st, fr.target, "transport-error", fmt.Sprintf("reader fails at offset %d/%d", k, n), data, fr.measure(), call(data, k))
 		}
 	} else {
-			forEachFault(s, fr.class, data, marks, fr.huge, func(in []byte, kind, desc string) {
+		forEachFault(s, fr.class, data, marks, fr.huge, func(in []byte, kind, desc string) {
 			probe(s, &fr.st, fr.target, kind, desc, in, fr.measure(), call(in, -1))
 		})
 	}
@@ -367,7 +367,10 @@ func genDeserOp(s *simrt.Sim, first bool) deserOp {
 			func(d *serializer.Deserializer) { var v float32; d.ReadNum(&v, passErr) }}
 	case 3:
 		x := s.Choose(2) == 1
-		return deserOp{"ReadBool", func(se *serializer.Serializer) []mark { se.WriteBool(x, passErr); return []mark{{off: 0, w: 1, kind: "bool"}} },
+		return deserOp{"ReadBool", func(se *serializer.Serializer) []mark {
+			se.WriteBool(x, passErr)
+			return []mark{{off: 0, w: 1, kind: "bool"}}
+		},
 			func(d *serializer.Deserializer) { var v bool; d.ReadBool(&v, passErr) }}
 	case 4:
 		x := byte(genBits(s, 8))
@@ -399,7 +402,10 @@ func genDeserOp(s *simrt.Sim, first bool) deserOp {
 		return deserOp{"ReadVariableByteSlice", func(se *serializer.Serializer) []mark {
 			se.WriteVariableByteSlice(x, seriLen[w], passErr, minL, maxL)
 			return []mark{{0, 1 << w, "len", true}}
-		}, func(d *serializer.Deserializer) { var v []byte; d.ReadVariableByteSlice(&v, seriLen[w], passErr, minL, maxL) }}
+		}, func(d *serializer.Deserializer) {
+			var v []byte
+			d.ReadVariableByteSlice(&v, seriLen[w], passErr, minL, maxL)
+		}}
 	case 10:
 		w := s.Choose(3)
 		x := string(genStringBytes(s, 0, 8))
@@ -413,7 +419,10 @@ func genDeserOp(s *simrt.Sim, first bool) deserOp {
 		}, func(d *serializer.Deserializer) { var v string; d.ReadString(&v, seriLen[w], passErr, minL, maxL) }}
 	case 11:
 		x := s.Choose(70000)
-		return deserOp{"ReadPayloadLength", func(se *serializer.Serializer) []mark { se.WritePayloadLength(x, passErr); return []mark{{off: 0, w: 4, kind: "len"}} },
+		return deserOp{"ReadPayloadLength", func(se *serializer.Serializer) []mark {
+			se.WritePayloadLength(x, passErr)
+			return []mark{{off: 0, w: 4, kind: "len"}}
+		},
 			func(d *serializer.Deserializer) { _, _ = d.ReadPayloadLength() }}
 	case 12:
 		w := s.Choose(3)
